@@ -63,7 +63,12 @@ func roomSet(rs ...string) mapset.Set[adapter.Room] {
 
 // (i) adapter level
 func (e *env) adapterHistory(rng *rand.Rand, nops int) {
-	const W, period, tol = 80 * time.Millisecond, 9 * time.Millisecond, 6 * time.Millisecond
+	const W, tol = 80 * time.Millisecond, 6 * time.Millisecond
+	period := 9 * time.Millisecond
+	if e.scen%3 == 2 {
+		// no cleaner (the public creator cleans once a minute): an expired session is still there when it is asked for
+		period = 0
+	}
 	vtrace.SetObjectFilter(func(any) bool { return false }) // until the new adapter exists
 	e.begin("adapter", W, tol)
 	store := adapter.NewTestSocketStore()
@@ -650,6 +655,7 @@ func TestC08(t *testing.T) {
 		t.Fatal(err)
 	}
 	e := &env{res: res, w: w}
+	defer vres.WedgeWatch(res, out, "recovery", func() int { return e.scen })()
 	rng := rand.New(rand.NewSource(vres.Seed()))
 	for i := 0; i < vres.Pick(30, 500); i++ {
 		e.adapterHistory(rng, 22)
